@@ -411,6 +411,7 @@ class Evaluator:
         self.alias_mode = False
         self._spec_mode = False
         self._keep_seq = False      # inside a subscript: tuple(x) / list(x) select different numpy indexing modes
+        self._open_gens = []        # loop bases of the comprehension generators being evaluated (shared by with_bound copies)
 
     # ------------------------------------------------------------ scope
     def _collect_locals(self):
@@ -822,6 +823,8 @@ class Evaluator:
         # comprehension / lambda variables are scoped to their expression: they must not capture same-named
         # locals while another statement's definition is evaluated
         self.bound = {k: v for k, v in saved_bound.items() if k not in self._local_names and k not in self._params}
+        saved_gens = self._open_gens[:]
+        del self._open_gens[:]      # a definition is evaluated where it stands, outside the comprehension that uses it
         try:
             res = None
             alld = [d for d in self.cfg.defs_of_node(node) if d[0] == name]
@@ -869,7 +872,7 @@ class Evaluator:
                         res = self._project(base, p)
                     elif how == "iter":
                         it = self._t(value, node, restrict)
-                        res = self._iter_elem(it, path)
+                        res = self._iter_elem(it, path, depth=self._loop_depth(node.stmt, it, restrict))
                     else:
                         res = self.ctx.mk(("with", tuple(path)), (self._t(value, node, restrict),))
                 elif how == "aug":
@@ -899,6 +902,7 @@ class Evaluator:
         finally:
             self._keep_seq = saved_keep
             self.bound = saved_bound
+            self._open_gens[:] = saved_gens
             self._stack.pop()
             foreign = self._foreign.pop()
         if not foreign:
@@ -919,7 +923,27 @@ class Evaluator:
                 base = self.ctx.mk(("unpack", p), (base,))
         return base
 
-    def _iter_elem(self, it, path):
+    def _loop_depth(self, stmt, it, restrict):
+        """how many loops that run over the same thing are open around this one (enclosing `for` statements of stmt and
+        comprehension generators being evaluated): the element of the inner loop is another value than the element of the
+        outer one, although both are "an element of X" """
+        base = self._loop_base(it)
+        k = 0
+        for b in self._open_gens:
+            if self.ctx.eq(b, base):
+                k += 1
+        cur = stmt
+        for p, f in (self.cfg.enclosing(stmt) if stmt is not None else ()):
+            if isinstance(p, ast.For) and f == "body" and p is not cur:
+                try:
+                    pb = self._loop_base(self._t(p.iter, self.cfg.node(p), restrict))
+                except AnalysisError:
+                    continue
+                if self.ctx.eq(pb, base):
+                    k += 1
+        return k
+
+    def _iter_elem(self, it, path, depth=0):
         """abstract element of iterable `it`; sees through zip/enumerate when unpacked."""
         path = list(path)
         h = self.ctx.head_of(it)
@@ -930,24 +954,44 @@ class Evaluator:
                 it = args[path.pop(0)]
                 h = self.ctx.head_of(it)
                 # element of that operand
-                return self._project_iter(self._each(it), path)
+                return self._project_iter(self._each(it, depth), path)
             if fname == "enumerate" and isinstance(path[0], int) and len(args) >= 1:
                 k = path.pop(0)
                 if k == 0:
-                    res = self.ctx.mk(("index",), (self._loop_base(args[0]) if self.exact else args[0],))
+                    res = self.ctx.mk(("index",) if not depth else ("index", depth),
+                                      (self._loop_base(args[0]) if self.exact else args[0],))
                     return self._project_iter(res, path)
-                return self._project_iter(self._each(args[0]), path)
+                return self._project_iter(self._each(args[0], depth), path)
             break
-        return self._project_iter(self._each(it), path)
+        return self._project_iter(self._each(it, depth), path)
 
-    def _each(self, it):
+    def _each(self, it, depth=0):
         """the abstract element of iterable `it`; the element of `[g(x) for x in A]` (one loop, no filter) is g(element of A)"""
         h = self.ctx.head_of(it)
-        if h and h[0] == "seqcomp" and h[1] == 1:
+        if h and h[0] == "seqcomp" and h[1] == 1 and not depth:
             ar = self.ctx.args_of(it)
             if self.ctx.head_of(ar[1]) == ("gen", 0):
                 return ar[0]
-        return self.ctx.mk(("iter", ()), (it,))
+        if self.exact and not depth and self._simple_dictcomp(it) is not None:
+            return self._simple_dictcomp(it)[0]
+        return self.ctx.mk(("iter", (depth,) if depth else ()), (it,))
+
+    def _simple_dictcomp(self, it):
+        """(key, value, base) of `{k: v for ... in base}` (one loop, no filter) whose key is the element of a sequence the
+        loop runs over: iterating it is iterating those keys (dictionary keys taken from the labels / dimension names /
+        file keys of this package are distinct, so no round is merged with another)"""
+        c = self.ctx
+        h = c.head_of(it)
+        if not (h and h[0] == "dictcomp" and h[1] == 1):
+            return None
+        ar = c.args_of(it)
+        if c.head_of(ar[1]) != ("gen", 0) or c.head_of(ar[0]) != ("item",):
+            return None
+        k, v_ = c.args_of(ar[0])
+        hk = c.head_of(k)
+        if not (hk and hk[0] == "iter"):
+            return None
+        return k, v_, c.args_of(ar[1])[0]
 
     def _loop_base(self, it):
         """what a loop really runs over: enumerate(X), zip(X, derived-from-X ...) and [g(x) for x in X] (no filter) have one
@@ -963,6 +1007,9 @@ class Evaluator:
                 continue
             if h and h[0] == "seqcomp" and h[1] == 1 and c.head_of(c.args_of(it)[1]) == ("gen", 0):
                 it = c.args_of(c.args_of(it)[1])[0]
+                continue
+            if self.exact and self._simple_dictcomp(it) is not None:
+                it = self._simple_dictcomp(it)[2]
                 continue
             b = self._zip_base(it)
             if b is it or c.eq(b, it):
@@ -1154,20 +1201,28 @@ class Evaluator:
             for p_ in parts[1:]:
                 out = c.mk(("concat",), (out, p_))
             return out
-        for g in e.generators:
-            it = ev._t(g.iter, at, R)
-            env = {}
-            for name, how, (value, path) in _comp_targets(g.target):
-                env[name] = ev._iter_elem(it, path)
-            ev = ev.with_bound(env)
-            conds = [ev._t(x, at, R) for x in g.ifs]
-            gens.append(c.mk(("gen", len(conds)), [self._loop_base(it) if self.exact else self._zip_base(it)] + conds))
-        if isinstance(e, ast.DictComp):
-            elt = c.mk(("item",), (ev._t(e.key, at, R), ev._t(e.value, at, R)))
-            kind = "dictcomp"
-        else:
-            elt = ev._t(e.elt, at, R)
-            kind = {"ListComp": "seqcomp", "GeneratorExp": "seqcomp", "SetComp": "setcomp"}[type(e).__name__]
+        opened = 0
+        try:
+            for g in e.generators:
+                it = ev._t(g.iter, at, R)
+                depth = self._loop_depth(at.stmt if at is not None else None, it, R)
+                env = {}
+                for name, how, (value, path) in _comp_targets(g.target):
+                    env[name] = ev._iter_elem(it, path, depth=depth)
+                ev = ev.with_bound(env)
+                self._open_gens.append(self._loop_base(it))
+                opened += 1
+                conds = [ev._t(x, at, R) for x in g.ifs]
+                gens.append(c.mk(("gen", len(conds)), [self._loop_base(it) if self.exact else self._zip_base(it)] + conds))
+            if isinstance(e, ast.DictComp):
+                elt = c.mk(("item",), (ev._t(e.key, at, R), ev._t(e.value, at, R)))
+                kind = "dictcomp"
+            else:
+                elt = ev._t(e.elt, at, R)
+                kind = {"ListComp": "seqcomp", "GeneratorExp": "seqcomp", "SetComp": "setcomp"}[type(e).__name__]
+        finally:
+            for _ in range(opened):
+                self._open_gens.pop()
         return c.mk((kind, len(gens)), [elt] + gens)
 
     def _zip_base(self, it):
@@ -1218,6 +1273,10 @@ class Evaluator:
             args = c.args_of(base)
             if -len(args) <= k < len(args) and not any((c.head_of(a) or ("",))[0] == "star" for a in args):
                 return args[int(k)]
+        if self.exact:
+            sd = self._simple_dictcomp(base)
+            if sd is not None and c.eq(sd[0], idx):
+                return sd[1]        # looked up with the key of the current round: the value of that round
         return c.mk(("sub",), (base, idx))
 
     def _replaced_element(self, base, idx, val):
@@ -1562,6 +1621,13 @@ class Evaluator:
         c = self.ctx
         if self.exact and cls != "?":
             init = self.repo.resolve_method(cls, "__init__")
+            if init is None and cls in self.repo.classes:
+                # a mix-in without constructor (`cls(...)` in _FieldIO_HDF5): the constructor of the one class built on it
+                subs = [q for q in self.repo.classes if q != cls and cls in self.repo.mro(q)
+                        and self.repo.resolve_method(q, "__init__") is not None]
+                inits = {self.repo.resolve_method(q, "__init__").qual for q in subs}
+                if len(inits) == 1:
+                    init = self.repo.resolve_method(subs[0], "__init__")
             if init is not None:
                 pos, kws = self._canon_args(self._repo_params(init, True), pos, kws)
         kws = sorted(kws, key=lambda kv: kv[0])
@@ -1650,6 +1716,22 @@ class Evaluator:
         if self.exact and fname in ("tuple", "list") and len(pos) == 1 and not star and not kws and \
                 (c.head_of(pos[0]) or ("",))[0] in ("tuple", "list"):
             return c.mk((fname,), list(c.args_of(pos[0])))        # tuple([a, b]) is (a, b)
+        if fname == "dict" and self.exact and not star and not pos and kws and all(k != "**" for k, _ in kws):
+            # dict(a=x, b=y) is {"a": x, "b": y} (insertion order = keyword order)
+            return c.mk(("dict",), [c.mk(("item",), (c.mk(("str", k)), v_)) for k, v_ in kws])
+        if fname == "dict" and self.exact and not star and not kws and len(pos) == 1:
+            # dict(zip(A, B)) is {a: b for a, b in zip(A, B)}
+            hz = c.head_of(pos[0])
+            if hz and hz[0] == "call" and hz[1] == "zip" and len(c.args_of(pos[0])) == 2 and not (len(hz) > 3 and hz[3]):
+                za, zb = c.args_of(pos[0])
+                return c.mk(("dictcomp", 1), [c.mk(("item",), (self._each(za), self._each(zb))),
+                                              c.mk(("gen", 0), [self._loop_base(pos[0])])])
+        if fname == "len" and len(pos) == 1 and not star and not kws and self.exact:
+            h0 = c.head_of(pos[0])
+            if h0 and h0[0] == "str":
+                return c.const(len(h0[1]))          # len("ft_") is 3
+            if h0 and h0[0] in ("tuple", "list") and not any((c.head_of(x) or ("",))[0] == "star" for x in c.args_of(pos[0])):
+                return c.const(len(c.args_of(pos[0])))
         if fname == "len" and len(pos) == 1 and not star and not kws and self.exact and \
                 (c.head_of(pos[0]) or ("",))[0] == "seqcomp":
             pos = [self._loop_base(pos[0])]
